@@ -274,6 +274,16 @@ def check_scope_shape(tree):
         ok = True
   if not ok:
     raise TranslatorError('permissions.permission(): outermost-wins assignment not found')
+  # the clean-up must be in a `finally` around the yield (normal AND exceptional exit)
+  fin = False
+  for n in ast.walk(fn):
+    if isinstance(n, ast.Try) and n.finalbody:
+      has_yield = any(isinstance(m, (ast.Yield, ast.YieldFrom)) for b in n.body for m in ast.walk(b))
+      has_del = 'thread_local_del(_TLS_CODE_RUN_PERMISSION)' in ''.join(ast.unparse(b) for b in n.finalbody)
+      if has_yield and has_del:
+        fin = True
+  if not fin:
+    raise TranslatorError('permissions.permission(): the slot is not cleaned up in a `finally` around the yield')
   return True
 
 
